@@ -11,7 +11,7 @@
 From Coq Require Import QArith.
 From TT Require Import Base.Prelude Gen.StlTables Model.TimeCode Model.Iso6937 Model.StlTf Model.StlDatafile Model.StlTriggers.
 From TT Require Import Spec.Smpte12M Spec.Ebu3264Spec.
-From TT Require Import Proofs.C09.Tables Proofs.C09.TextField Proofs.C09.Text Proofs.C09.Times Proofs.C09.Datafile Proofs.C09.File.
+From TT Require Import Proofs.C09.Tables Proofs.C09.TextField Proofs.C09.Text Proofs.C09.Times Proofs.C09.Datafile Proofs.C09.File Proofs.C09.Config.
 Open Scope Z_scope.
 
 (* ---- character code tables ---------------------------------------------------------------------------------- *)
@@ -187,17 +187,78 @@ Theorem C09_reader_total : forall file cfg k, length file = (1024 + 128 * k)%nat
   exists d, reader_model file cfg = Ok d.
 Proof. exact reader_total. Qed.
 
-(* ---- configuration decoders (stl/config.py) -------------------------------------------------------------------------- *)
+(* ---- configuration: STLReaderConfiguration.parse (stl/config.py, ttconv/config.py) ------------------------------------- *)
+(* program_start_tc.  _decode_start_tc lets through EXACTLY: null; "TCP" in any letter case (-> "TCP"); a complete time
+   code - two ASCII digits, a character that is not a new-line, two digits, ... eleven characters with nothing before or
+   after them - which is kept as it is.  (Since the repair "program_start_tc accepted trailing text after the time
+   code": re.fullmatch; formerly only "a string that starts with a time code" could be stated.) *)
+Theorem C09_config_start_accepts : forall v s,
+  decode_start_tc v = inl s <->
+  (v = VNull /\ s = StNone) \/
+  (exists t, v = VStr t /\ any_case [84; 67; 80] t /\ s = StTCP) \/
+  (exists t, v = VStr t /\ complete_time_code not_newline t /\ s = StStr t).
+Proof. exact decode_start_accepts. Qed.
+Theorem C09_config_start_tcp : forall v, decode_start_tc v = inl StTCP <-> exists t, v = VStr t /\ any_case [84; 67; 80] t.
+Proof. exact decode_start_tcp. Qed.
+(* ... text after a complete time code is a ValueError whatever it is; everything that is not accepted - any other
+   string, and any value that is not a string: a boolean, a number, a list (since the repair of start-tc-non-string) - is
+   a ValueError *)
+Theorem C09_config_start_no_trailing : forall t x u, complete_time_code not_newline t -> decode_start_tc (VStr (t ++ x :: u)) = inr EValue.
+Proof. exact decode_start_no_trailing. Qed.
+Theorem C09_config_start_rejects : forall v e,
+  decode_start_tc v = inr e <->
+  e = EValue /\ v <> VNull /\ forall t, v = VStr t -> ~ any_case [84; 67; 80] t /\ ~ complete_time_code not_newline t.
+Proof. exact decode_start_rejects. Qed.
+Theorem C09_config_start_non_string : forall v, v <> VNull -> (forall t, v <> VStr t) -> decode_start_tc v = inr EValue.
+Proof. exact decode_start_non_string. Qed.
 (* whatever _decode_start_tc lets through, SmpteTimeCode.parse accepts (no ValueError from DataFile.__init__ after
-   STLReaderConfiguration.parse); the documented forms HH:MM:SS:FF and TCP (any case) are accepted and mean what S reads *)
+   STLReaderConfiguration.parse); the documented form HH:MM:SS:FF is accepted, kept, and means what S reads; a value
+   that is kept is one S reads exactly when its separators are colons *)
 Theorem C09_config_start_parses : forall v t, decode_start_tc v = inl (StStr t) -> forall fps, parse_tc t fps <> None.
 Proof. exact decode_start_parses. Qed.
 Theorem C09_config_start_label : forall t l, label_of_text t = Some l ->
-  decode_start_tc (Some t) = inl (StStr t) /\ spec_start (StStr t) = Some (StartLabel l).
+  decode_start_tc (VStr t) = inl (StStr t) /\ spec_start (StStr t) = Some (StartLabel l).
 Proof. exact decode_start_label. Qed.
-Theorem C09_config_start_tcp : forall a b c, (a = 84 \/ a = 116) -> (b = 67 \/ b = 99) -> (c = 80 \/ c = 112) ->
-  decode_start_tc (Some [a; b; c]) = inl StTCP.
-Proof. exact decode_start_tcp. Qed.
+Theorem C09_config_start_spec : forall v t, decode_start_tc v = inl (StStr t) ->
+  (exists l, spec_start (StStr t) = Some (StartLabel l)) <-> complete_time_code (fun c => c = 58) t.
+Proof. exact decode_start_spec. Qed.
+(* max_row_count.  _decode_max_row_count lets through EXACTLY: null; "MNR" in any letter case; an integer that is not a
+   boolean.  true / false (since the repair "max_row_count accepted true and false as integers"), digits in a string
+   and everything else are ValueErrors *)
+Theorem C09_config_rows_accepts : forall v r,
+  decode_max_row_count v = inl r <->
+  (v = VNull /\ r = MrNone) \/ (exists t, v = VStr t /\ any_case [77; 78; 82] t /\ r = MrMNR) \/ (exists n, v = VInt n /\ r = MrInt n).
+Proof. exact decode_rows_accepts. Qed.
+Theorem C09_config_rows_rejects : forall v e, decode_max_row_count v = inr e -> e = EValue.
+Proof. exact decode_rows_rejects. Qed.
+Theorem C09_config_rows_bool : forall b, decode_max_row_count (VBool b) = inr EValue.
+Proof. exact decode_rows_bool. Qed.
+Theorem C09_config_rows_digits : forall t, Forall ascii_digit t -> decode_max_row_count (VStr t) = inr EValue.
+Proof. exact decode_rows_digits. Qed.
+(* disable_fill_line_gap, disable_line_padding.  decode_bool lets through EXACTLY the two JSON booleans and returns them
+   (since the repair "fields documented as true | false accepted any JSON value by truthiness"); null, 0, 1, "false" are
+   ValueErrors *)
+Theorem C09_config_flag_accepts : forall v b, decode_bool v = inl b <-> v = VBool b.
+Proof. exact decode_bool_accepts. Qed.
+Theorem C09_config_flag_rejects : forall v e, decode_bool v = inr e <-> e = EValue /\ forall b, v <> VBool b.
+Proof. exact decode_bool_rejects. Qed.
+(* the dictionary: parse returns a configuration exactly when every key holds a value its decoder accepts, and it holds
+   the decoded values (absent keys: False / None); a parsed configuration never makes the reader fail on a file of
+   1024 + 128 k bytes (no hypothesis on the start time code is left: compare C09_reader_total) *)
+Theorem C09_config_parse : forall fill start pad rows cfg,
+  parse_config fill start pad rows = inl cfg <->
+  exists nofill st nopad r,
+    decode_bool (dict_get fill (VBool false)) = inl nofill /\ decode_start_tc (dict_get start VNull) = inl st /\
+    decode_bool (dict_get pad (VBool false)) = inl nopad /\ decode_max_row_count (dict_get rows VNull) = inl r /\
+    cfg = mkConfig st r nofill nopad None.
+Proof. exact parse_config_accepts. Qed.
+Theorem C09_config_reader_total : forall fill start pad rows cfg file k,
+  parse_config fill start pad rows = inl cfg -> length file = (1024 + 128 * k)%nat -> exists d, reader_model file cfg = Ok d.
+Proof. exact parse_config_reader_total. Qed.
+(* a rejected dictionary is rejected with ValueError, whatever its values: STLReaderConfiguration.parse raises no other
+   exception (formerly false: AttributeError on a program_start_tc that is not a string, start-tc-non-string) *)
+Theorem C09_config_errors : forall fill start pad rows e, parse_config fill start pad rows = inr e -> e = EValue.
+Proof. exact parse_config_errors. Qed.
 
 (* ---- the whole file ---------------------------------------------------------------------------------------------- *)
 (* every list of TTI blocks in the specification's domain, read from the initial state by the reader's per-block step,
@@ -277,6 +338,29 @@ Example C09_example_zero_rows :
   (exists groups, presentation file StartNone (RowsInt (-3)) = Some (groups, 23)) /\
   length file = (1024 + 128 * 1)%nat.
 Proof. cbv zeta. repeat split; try (eexists; vm_compute; reflexivity); vm_compute; reflexivity. Qed.
+(* the hypotheses of the configuration theorems are satisfiable, and the inputs of the three repaired defects are rejected:
+   "10:00:00:00" is kept, "10:00:00:00x" / "10:00:00:00" + new-line / "10:00:00" are ValueErrors, tCp is TCP;
+   max_row_count true and "23" are ValueErrors, 23 and mnr are accepted; disable_fill_line_gap "false" / null / 0 are
+   ValueErrors; a dictionary with all four keys is parsed into the configuration; program_start_tc true / 5 / a list are ValueErrors *)
+Example C09_example_config :
+  let tc := [49; 48; 58; 48; 48; 58; 48; 48; 58; 48; 48] in
+  complete_time_code not_newline tc /\ label_of_text tc = Some (10, 0, 0, 0) /\
+  decode_start_tc (VStr tc) = inl (StStr tc) /\
+  decode_start_tc (VStr (tc ++ [120])) = inr EValue /\ decode_start_tc (VStr (tc ++ [10])) = inr EValue /\
+  decode_start_tc (VStr (firstn 8 tc)) = inr EValue /\
+  decode_start_tc (VStr [116; 67; 112]) = inl StTCP /\ decode_start_tc (VStr [84; 67; 80; 32]) = inr EValue /\
+  decode_max_row_count (VBool true) = inr EValue /\ decode_max_row_count (VStr [50; 51]) = inr EValue /\
+  decode_max_row_count (VInt 23) = inl (MrInt 23) /\ decode_max_row_count (VStr [109; 110; 114]) = inl MrMNR /\
+  decode_bool (VStr [102; 97; 108; 115; 101]) = inr EValue /\ decode_bool VNull = inr EValue /\ decode_bool (VInt 0) = inr EValue /\
+  parse_config (Some (VBool true)) (Some (VStr tc)) (Some (VBool false)) (Some (VInt 11)) = inl (mkConfig (StStr tc) (MrInt 11) true false None) /\
+  parse_config None None None None = inl cfg0 /\
+  parse_config (Some VNull) None None None = inr EValue /\
+  decode_start_tc (VBool true) = inr EValue /\ decode_start_tc (VInt 5) = inr EValue /\ decode_start_tc VOther = inr EValue.
+Proof.
+  cbv zeta. split; [|repeat split; reflexivity].
+  exists 49, 48, 58, 48, 48, 58, 48, 48, 58, 48, 48. split; [reflexivity|].
+  split; repeat (apply Forall_cons; [unfold ascii_digit, not_newline; lia|]); apply Forall_nil.
+Qed.
 Example C09_example_region : region_for 23 20 [65; 138; 66] false = Some (mkRegion (qz 5) (qz 10) (qz 90) (qz 21 / qz 23 * qz 80)%Q true).
 Proof. reflexivity. Qed.
 
@@ -294,5 +378,10 @@ Print Assumptions C09_sn_value.
 Print Assumptions C09_grouping.  Print Assumptions C09_subtitle.  Print Assumptions C09_early_dropped.  Print Assumptions C09_cumulative.
 Print Assumptions C09_no_attribute_error.  Print Assumptions C09_block_errors.  Print Assumptions C09_reader_errors.
 Print Assumptions C09_reader_no_zero_div.  Print Assumptions C09_reader_total.
-Print Assumptions C09_config_start_parses.  Print Assumptions C09_config_start_label.  Print Assumptions C09_config_start_tcp.
+Print Assumptions C09_config_start_accepts.  Print Assumptions C09_config_start_tcp.  Print Assumptions C09_config_start_no_trailing.
+Print Assumptions C09_config_start_rejects.  Print Assumptions C09_config_start_non_string.  Print Assumptions C09_config_start_parses.  Print Assumptions C09_config_start_label.
+Print Assumptions C09_config_start_spec.  Print Assumptions C09_config_rows_accepts.  Print Assumptions C09_config_rows_rejects.
+Print Assumptions C09_config_rows_bool.  Print Assumptions C09_config_rows_digits.  Print Assumptions C09_config_flag_accepts.
+Print Assumptions C09_config_flag_rejects.  Print Assumptions C09_config_parse.  Print Assumptions C09_config_reader_total.
+Print Assumptions C09_config_errors.
 Print Assumptions C09_blocks.  Print Assumptions C09_file_partial.
